@@ -18,7 +18,7 @@ from fsic.core import BaseLinker, VectorContainer
 from fsic.extensions import AliasMixin, TracerMixin
 
 from .. import scripted
-from ..core.observe import observe, diff_obs, class_state
+from ..core.observe import observe, diff_obs, class_state, canon
 from ..core.runner import Acc, guard, CaseTimeout, robust
 
 ID = 'C11'
@@ -135,6 +135,10 @@ def _newattr(o):
     base.add_variable('V', 1.0)
     o.baseline = base
     o.pair = ([1, 2], 'x')
+    # names that are fragments of the object's own bookkeeping keys ('submodels', 'span', 'index', 'names', '_attributes')
+    for frag in ('sub', 'mode', 'models', 'pan', 'dex', 'name', 'attr'):
+        if frag not in vars(o) and not hasattr(type(o), frag):
+            setattr(o, frag, [frag])
 
 
 def op_table(kind):
@@ -381,6 +385,94 @@ def run_static_case(case):
             sh = shared(sub, class_mutables(type(sub)))
             if sh:
                 out.append(('class:shared-object:submodel', 'none', sh[:3], 'a submodel shares a mutable object with its class'))
+                break
+    out += input_aliasing(kind)
+    if kind == 'linker':
+        # linkers created with every argument left at its default: the defaults themselves must not be shared
+        try:
+            p, q = BaseLinker(), BaseLinker()
+            sh = shared(p, q)
+            if sh:
+                out.append(('siblings:shared-object:default-arguments', 'no shared mutable object', sh[:4], 'two linkers created with default arguments share a mutable object'))
+            before = observe(q)
+            p.submodels['late'] = _M(list(SPAN))
+            if observe(q) != before:
+                out.append(('leak:sibling:default-arguments', 'sibling unchanged', diff_obs(before, observe(q))[:2], 'adding a submodel to one default-constructed linker shows on another'))
+            r = BaseLinker()
+            if list(r.submodels):
+                out.append(('leak:later-instance:default-arguments', [], list(r.submodels), 'a linker created later starts with submodels added to an earlier one'))
+        except Exception as e:
+            out.append(('default-arguments:%s' % type(e).__name__, 'constructs', repr(e)[:160], 'BaseLinker() with default arguments'))
+    return out
+
+
+INPUT_PATHS = ['ctor', 'add_variable', 'setattr', 'setitem', 'setslice', 'replace_values', 'values', 'from_dataframe']
+
+
+def input_aliasing(kind):
+    """One caller-owned array (dtype and length already right, so nothing forces a conversion) is handed to two sibling
+    instances through every input path: the instances hold copies - a write to one shows neither on the other nor in the
+    caller's array, and a later write to the caller's array shows in neither."""
+    out = []
+    probe = build(kind)
+    v = next(x for x in probe.index if (probe[x] if not hasattr(probe, 'aliases') else vars(probe)['_' + x]).dtype.kind == 'f')
+    n = len(SPAN)
+    for path in INPUT_PATHS:
+        for flavour in ('float64', 'view', 'fortran-2d-row'):
+            base = np.arange(1.0, 2 * n + 1.0)
+            ext = {'float64': base[:n].copy(), 'view': base[::2], 'fortran-2d-row': np.asfortranarray(np.arange(1.0, 2 * n + 1.0).reshape(2, n))[1]}[flavour]
+            keep = ext.copy()
+            pair = []
+            try:
+                for _ in range(2):
+                    if path == 'ctor':
+                        if kind in ('container', 'linker'):
+                            raise LookupError
+                        o = klass(kind)(list(SPAN), **{v: ext})
+                    elif path == 'from_dataframe':
+                        if kind in ('container', 'linker') or not hasattr(klass(kind), 'from_dataframe'):
+                            raise LookupError
+                        import pandas as pd
+                        o = klass(kind).from_dataframe(pd.DataFrame({v: ext}, index=list(SPAN), copy=False))
+                    else:
+                        o = build(kind)
+                        if path == 'add_variable':
+                            o.add_variable('Wext', ext)
+                        elif path == 'setattr':
+                            setattr(o, v, ext)
+                        elif path == 'setitem':
+                            o[v] = ext
+                        elif path == 'setslice':
+                            o[v, SPAN[0]:SPAN[-1]] = ext
+                        elif path == 'replace_values':
+                            o.replace_values(**{v: ext})
+                        elif path == 'values':
+                            full = np.array(o.values, dtype=float)
+                            if full.ndim != 2:
+                                raise LookupError
+                            o.values = full
+                            ext, keep = full, full.copy()
+                    pair.append(o)
+            except LookupError:
+                continue
+            except Exception as e:
+                out.append(('input:%s:%s' % (path, type(e).__name__), 'accepted', repr(e)[:120], 'a right-sized float array is not accepted through %s' % path))
+                break
+            a, b = pair
+            name = 'Wext' if path == 'add_variable' else v
+            before_b = observe(b)
+            arr = a[name] if not hasattr(a, 'aliases') else vars(a)['_' + name]
+            arr[1] = -4321.0
+            if observe(b) != before_b:
+                out.append(('input:shared-between-instances:%s' % path, 'sibling unchanged', diff_obs(before_b, observe(b))[:2], 'two instances fed the same array through %s share it (%s)' % (path, flavour)))
+                break
+            if canon(np.asarray(ext)) != canon(np.asarray(keep)):
+                out.append(('input:caller-array-written:%s' % path, 'caller array untouched', np.asarray(ext).tolist(), 'a write to the instance went through to the caller\'s array (%s, %s)' % (path, flavour)))
+                break
+            before_a = observe(a)
+            ext.flat[2] = 9876.5
+            if observe(a) != before_a:
+                out.append(('input:caller-write-seen:%s' % path, 'instance unchanged', diff_obs(before_a, observe(a))[:2], 'a later write to the caller\'s array changed the instance (%s, %s)' % (path, flavour)))
                 break
     return out
 
